@@ -34,6 +34,21 @@ type pppFrame struct {
 
 type c04sock struct{ w *c04world }
 
+// Recv feeds the server's own receive loop (rxloop mode): it parks until the
+// harness has queued a frame.
+func (s c04sock) Recv(buf []byte) (int, error) {
+	w := s.w
+	w.rxIdle = true
+	w.c.S.WaitUntil(func() bool { return len(w.rxq) > 0 || w.rxStop })
+	w.rxIdle = false
+	if len(w.rxq) == 0 {
+		return 0, fmt.Errorf("socket closed")
+	}
+	f := w.rxq[0]
+	w.rxq = w.rxq[1:]
+	return copy(buf, f), nil
+}
+
 func (s c04sock) Send(iface string, dst net.HardwareAddr, etherType uint16, frame []byte) error {
 	s.w.onSend(dst, etherType, frame)
 	return nil
@@ -62,6 +77,10 @@ type c04world struct {
 	curSrc   net.HardwareAddr
 	curKind  string
 	emitted  int
+	sidOwner map[uint16]string // PPPoE session id -> MAC the PADS was sent to
+	rxq      [][]byte
+	rxIdle   bool
+	rxStop   bool
 }
 
 func (w *c04world) sessionByID(id uint16) *pppoe.Session {
@@ -89,6 +108,9 @@ func (w *c04world) onSend(dst net.HardwareAddr, etype uint16, frame []byte) {
 	w.sent = append(w.sent, f)
 	c.S.Logf("sent etype=%04x code=%d sid=%d proto=%04x len=%d to %s", etype, code, sid, f.proto, len(f.body), dst)
 	if etype == pppoe.EtherTypePPPoEDiscovery {
+		if code == pppoe.CodePADS {
+			w.sidOwner[sid] = dst.String()
+		}
 		if peer := w.byMAC[dst.String()]; peer != nil && code == pppoe.CodePADS {
 			peer.sid = sid
 		}
@@ -108,7 +130,7 @@ func (w *c04world) onSend(dst net.HardwareAddr, etype uint16, frame []byte) {
 	key := sess.SessionID
 	switch f.proto {
 	case pppoe.ProtocolPAP:
-		if f.body[0] == pppoe.PAPCodeAuthAck && dst.String() == sess.ClientMAC.String() {
+		if f.body[0] == pppoe.PAPCodeAuthAck && dst.String() == w.sidOwner[sid] {
 			if !w.radius || w.radAcc[sess.Username] > 0 {
 				w.accepted[key] = true
 			} else {
@@ -171,6 +193,7 @@ func c04Gen(r *sim.Rand, tier string) *sim.Case {
 	cs.Knobs["peers"] = int64(r.Range(1, 3))
 	cs.Knobs["skipmax"] = int64(sim.Pick(r, 1, 2, 8))
 	cs.Knobs["maporder"] = int64(r.N(4))
+	cs.Knobs["rxloop"] = int64(r.N(2))
 	np := int(cs.Knobs["peers"])
 	n := r.Range(4, 14)
 	if tier == "thorough" {
@@ -218,7 +241,9 @@ func c04Gen(r *sim.Rand, tier string) *sim.Case {
 
 func c04Run(c *sim.Ctx) {
 	cs := c.Case
-	w := &c04world{c: c, byMAC: map[string]*c04peer{}, accepted: map[string]bool{}, radAcc: map[string]int{}, radius: cs.Variant == "radius"}
+	w := &c04world{c: c, byMAC: map[string]*c04peer{}, accepted: map[string]bool{}, radAcc: map[string]int{}, radius: cs.Variant == "radius",
+		sidOwner: map[uint16]string{}}
+	rxloop := cs.Knob("rxloop", 0) == 1
 	iface := &net.Interface{Index: 2, MTU: 1500, Name: "sim0", HardwareAddr: net.HardwareAddr{0x02, 0xbb, 0, 0, 0, 1}}
 	srv, err := pppoe.VerifNewServerWithSocket(pppoe.ServerConfig{Interface: "sim0", ACName: "ac", ServiceName: "internet",
 		ServerIP: "10.0.0.1", ClientPool: "10.0.0.0/29", PoolGateway: "10.0.0.1", PrimaryDNS: "9.9.9.9", SessionTimeout: 5 * time.Minute},
@@ -272,6 +297,12 @@ func c04Run(c *sim.Ctx) {
 	ctx, cancel := context.WithCancel(context.Background())
 	defer cancel()
 	c.S.Spawn("pppoe-cleanup", nil, func() { srv.VerifRunCleanup(ctx) })
+	if rxloop {
+		// frames travel through the server's real receive loop (and its reused
+		// receive buffer) instead of being handed to the handlers directly
+		c.S.Spawn("pppoe-rx", nil, func() { srv.VerifRunReceiveLoop(ctx) })
+		defer func() { w.rxStop = true }()
+	}
 
 	pppoeHdr := func(code uint8, sid uint16, payload []byte) []byte {
 		b := make([]byte, 6+len(payload))
@@ -315,14 +346,28 @@ func c04Run(c *sim.Ctx) {
 			c.S.Fault("frame.foreign-mac")
 		}
 		c.S.Logf("deliver %s sid=%d src=%s owner=%v", kind, sid, src, owner)
-		t := c.S.Spawn("rx", nil, func() {
-			if disc {
-				srv.VerifDiscovery(src, payload)
-			} else {
-				srv.VerifSession(src, payload)
+		if rxloop {
+			dst := iface.HardwareAddr
+			if kind == "padi" {
+				dst = net.HardwareAddr{0xff, 0xff, 0xff, 0xff, 0xff, 0xff}
 			}
-		})
-		c.S.Join(t)
+			et := uint16(pppoe.EtherTypePPPoESession)
+			if disc {
+				et = pppoe.EtherTypePPPoEDiscovery
+			}
+			fr := append(append(append([]byte{}, dst...), src...), byte(et>>8), byte(et))
+			w.rxq = append(w.rxq, append(fr, payload...))
+			c.S.WaitUntil(func() bool { return len(w.rxq) == 0 && w.rxIdle })
+		} else {
+			t := c.S.Spawn("rx", nil, func() {
+				if disc {
+					srv.VerifDiscovery(src, payload)
+				} else {
+					srv.VerifSession(src, payload)
+				}
+			})
+			c.S.Join(t)
+		}
 		c.OpsDone++
 		// let goroutines the handler started (LCP start) finish
 		c.S.Sleep(time.Millisecond)
@@ -376,10 +421,10 @@ func c04Run(c *sim.Ctx) {
 				continue
 			}
 			src, owner := srcOf(p, op.Arg(1))
-			if s := w.sessionByID(p.sid); s != nil && s.ClientMAC.String() == src.String() {
-				owner = true
-			} else if s != nil {
-				owner = false
+			// the owner of a session is the MAC its PADS was sent to (the harness's
+			// own record, not the server's bookkeeping)
+			if o, ok := w.sidOwner[p.sid]; ok {
+				owner = o == src.String()
 			}
 			switch op.K {
 			case "padt":
